@@ -418,6 +418,14 @@ func (w *dbWorld) run(p *simkit.Program) {
 					seqs = append(seqs, uint64(k))
 				}
 			}
+			if st.C%3 == 1 {
+				// the request lists its sequences in descending order, or rotated: order means nothing
+				for a, b := 0, len(seqs)-1; a < b; a, b = a+1, b-1 {
+					seqs[a], seqs[b] = seqs[b], seqs[a]
+				}
+			} else if st.C%3 == 2 && len(seqs) > 2 {
+				seqs = append(seqs[len(seqs)/2:], seqs[:len(seqs)/2]...)
+			}
 			if id.ai == 2 {
 				resp, err := w.rpc.GetGovernanceVAABatch(ctx, &publicrpcv1.GetGovernanceVAABatchRequest{Sequences: seqs})
 				if err != nil {
@@ -480,6 +488,39 @@ func (w *dbWorld) run(p *simkit.Program) {
 				}
 				w.log.Add("batch %s %v -> %d", id.stream(), seqs, len(resp.Entries))
 			}
+		case "closedops":
+			// shutdown order: the store has been closed while the RPC layer and a writer still use it.
+			// Nothing may be invented: a lookup answers with an error (never "found" with other bytes,
+			// never OK with nothing), and a store that answers "stored" must be there after the reopen.
+			if err := w.d.Close(); err != nil {
+				w.violate("close-failed", "Close: %v", err)
+			}
+			w.stats.Fault("operations-on-a-closed-store")
+			b, err := w.d.GetSignedVAABytes(id.vaaID())
+			if err == nil && !bytes.Equal(b, w.model[id.key()]) {
+				w.violate("closed-store-lookup-invents-an-answer", "lookup of %s on a closed store answered success with %d bytes (stored: %d bytes)", id.key(), len(b), len(w.model[id.key()]))
+			}
+			if w.model[id.key()] == nil && err == nil {
+				w.violate("closed-store-lookup-invents-an-answer", "lookup of absent %s on a closed store answered success", id.key())
+			}
+			resp, rerr := w.rpc.GetSignedVAA(ctx, &publicrpcv1.GetSignedVAARequest{MessageId: &publicrpcv1.MessageID{
+				EmitterChain: publicrpcv1.ChainID(id.ec), EmitterAddress: hex.EncodeToString(id.addr[:]), TargetChain: publicrpcv1.ChainID(id.tc), Sequence: id.seq}})
+			if rerr == nil && !bytes.Equal(resp.VaaBytes, w.model[id.key()]) {
+				w.violate("closed-store-lookup-invents-an-answer", "public RPC for %s on a closed store answered OK with %d bytes", id.key(), len(resp.VaaBytes))
+			}
+			v, exp := buildVAA(id, st.B, st.C)
+			if serr := w.d.StoreSignedVAA(v); serr == nil {
+				w.model[id.key()] = exp // acknowledged
+				w.ids[id.key()] = id
+			}
+			if err := w.open(); err != nil {
+				w.violate("reopen-failed", "Open after clean close: %v", err)
+				return
+			}
+			if b, err := w.d.GetSignedVAABytes(id.vaaID()); w.model[id.key()] != nil && (err != nil || !bytes.Equal(b, w.model[id.key()])) {
+				w.violate("acknowledged-store-lost", "a store of %s on the closed store was acknowledged, after the reopen the lookup says err=%v (%d bytes)", id.key(), err, len(b))
+			}
+			w.log.Add("closedops %s", id.key())
 		case "reopen":
 			if err := w.d.Close(); err != nil {
 				w.violate("close-failed", "Close: %v", err)
@@ -570,12 +611,16 @@ func (dbHarness) Gen(seed uint64, prop, tier string) *simkit.Program {
 				p.Steps[len(p.Steps)-1].D = 1
 			}
 		case 3:
-			add("batch", packID(s.ci, s.ai, s.ti, 0), int64(r.Intn(1<<13)), 0)
+			add("batch", packID(s.ci, s.ai, s.ti, 0), int64(r.Intn(1<<13)), int64(r.Intn(3)))
 			if r.P(0.12) {
 				p.Steps[len(p.Steps)-1].D = 1
 			}
 		case 4:
-			add("reopen", 0, 0, 0)
+			if r.P(0.3) {
+				add("closedops", packID(s.ci, s.ai, s.ti, r.Intn(13)), int64(r.Intn(8)), int64(r.Intn(12)))
+			} else {
+				add("reopen", 0, 0, 0)
+			}
 		case 5:
 			id := packID(r.Intn(6), 3, r.Intn(11), r.Intn(4))
 			add("store", id, int64(r.Intn(8)), int64(r.Intn(12)))
